@@ -1,3 +1,3 @@
 // C14 float instantiations
 #include "c14_ext.hpp"
-namespace c14 { template bool run_lattice<float> (bool); template bool run_extreme<float> (bool); template bool run_rounding<float> (bool); }
+namespace c14 { template bool run_lattice<float> (bool); template bool run_extreme<float> (bool); template bool run_rounding<float> (bool); template bool run_elongated<float> (bool); }
